@@ -29,4 +29,8 @@ def check(ctx: Ctx) -> str:
     from . import c08
 
     ctx.run_imported("C08", {"R1"}, c08.check)
+    # template data under a run-time autoescape decision is marked by a run-time selector
+    from ..escrules import runtime_selector_rule
+
+    runtime_selector_rule(ctx, "R9")
     return __doc__ or ""
